@@ -46,6 +46,9 @@ QUEUES = {
     'unknown-command': [[b'set', b'out', b'1'], [b'nosuchcmd', b'x'], [b'incr', b'cnt']],
     'arity-error': [[b'set', b'out', b'1'], [b'get'], [b'incr', b'cnt']],
     'empty': [],
+    'dangling-repeat': [[b'set', b'out', b'1'], [b'mset', b'k5', b'v', b'dangling'], [b'incr', b'cnt']],
+    'dangling-repeat-hset': [[b'set', b'out', b'1'], [b'hset', b'h5', b'f', b'v', b'dangling'], [b'incr', b'cnt']],
+    'unknown-then-valid': [[b'nosuchcmd'], [b'set', b'out', b'1']],
     'watch-inside': [[b'watch', b'other'], [b'set', b'out', b'1']],
     'nested-multi': [[b'multi'], [b'set', b'out', b'1']],
     'blocking-inside': [[b'blpop', b'nolist', b'0'], [b'set', b'out', b'1']],
